@@ -31,7 +31,7 @@ def expected_args(args):
 class Scenario:
     def __init__(self, case):
         self.case = case
-        self.env = Environment()
+        self.env = Environment(initial_time=case.get("init", 0))
         self.timer = None
         self.log = []
         self.in_cb = False
@@ -107,7 +107,7 @@ class Scenario:
             env.process(p())
         n = 0
         try:
-            while env.peek() < HORIZON:
+            while env.peek() < c.get("init", 0) + HORIZON:
                 n += 1
                 if n > 20000:
                     raise Inconclusive("step budget")
@@ -192,7 +192,7 @@ def judge(case, log, exhausted):
                     # one-shot timer that has already fired, restarted from outside: not specified
                     spec = False
                     stats["restart_of_fired_oneshot"] = stats.get("restart_of_fired_oneshot", 0) + 1
-    end = HORIZON if not exhausted else inf
+    end = case.get("init", 0) + HORIZON if not exhausted else inf
     if spec and E is not None and E < end:
         raise Violation("C19.missed", f"no firing at the expiry t={E!r} (run ended)", "C19.missed/end")
     if max(ops_at.values() or [0]) >= 2:
@@ -206,7 +206,7 @@ def run_case(case):
     exhausted = sc.run()
     stats = judge(case, sc.log, exhausted)
     classes = {k for k, v in stats.items() if v and k not in ("fires", "spec")}
-    if case.get("bystander") and getattr(sc, "by_due", HORIZON) < HORIZON:
+    if case.get("bystander") and getattr(sc, "by_due", inf) < case.get("init", 0) + HORIZON:
         want = [(sc.by_due, ("by", 0), {})]
         if sc.by_log != want:
             raise Violation("C19.bystander", f"a second, untouched one-shot timer (created {case['bystander'][0]} after the start, "
@@ -216,6 +216,8 @@ def run_case(case):
         classes.add(">=2 firings")
     if not stats["spec"]:
         classes.add("left the specified domain")
+    if case.get("init"):
+        classes.add("clock far from zero")
     if not isinstance(case["args"], (list, tuple)) and case["args"] not in ("omit", None):
         classes.add("scalar args")
         if not case["args"]:
@@ -228,7 +230,10 @@ def run_case(case):
 def strategy(tier):
     dense = _strategy(tier, [1, 2, 0.5, 1, 0.3], [0, 1, 2, 0.5, 1, 0.5, 0.3])
     wide = _strategy(tier, TAUS, [0, 1, 2, 3, 0.5, 0.25, 1.5, 0.1, 0.2, 0.3, 0.7])
-    return kgen.weighted([(dense, 3), (wide, 1)])
+    # clocks that start far from zero (seconds since some epoch, long-running simulations); dyadic values keep every sum exact
+    far = st.tuples(_strategy(tier, [1, 2, 0.5, 0.25, 1.5, 3], [0, 1, 2, 0.5, 0.25, 1.5]),
+                    st.sampled_from([2 ** 31, 1700000000.0, 2 ** 40, 10 ** 9])).map(lambda t: dict(t[0], init=t[1]))
+    return kgen.weighted([(dense, 3), (wide, 1), (far, 1)])
 
 
 def _strategy(tier, taus, delays):
@@ -270,7 +275,7 @@ PROP = Property(
           "next firing. Non-trivial = a call at an expiry instant AND (a restart from the callback OR two calls at one instant)."),
     facets=[Facet("scenarios", strategy, run_case, quick=3000, thorough=20000,
                   essential=["op_at_expiry_before_fire", "op_at_expiry_after_fire", "op_from_callback_restart",
-                             "op_from_callback_stop", "two_ops_one_instant", "second timer in the same environment", "scalar args", "falsy scalar argument (0, '', False)", "restart_pending",
+                             "op_from_callback_stop", "two_ops_one_instant", "second timer in the same environment", "clock far from zero", "scalar args", "falsy scalar argument (0, '', False)", "restart_pending",
                              "restart_after_stop"])],
     assumptions=["same-instant order of a call and an expiry is taken from the harness log (DESIGN 3.5 rule 1)"],
 )
